@@ -78,6 +78,21 @@ func c01Plan(tier string, seed uint64) (jobs []rt.Job) {
 			add(seam(h, hf, s), "seam-jumps", 2, map[string]interface{}{"allpairs": h <= 6 || (!q && h <= 8), "budget": jb})
 		}
 	}
+	// tall trees end to end: fake leaves everywhere except at the indices that get signed, which carry the
+	// genuine WOTS leaves, so the signatures of heights 16..22 go through the real Verify
+	tallH := []int{16, 18}
+	if !q {
+		tallH = []int{12, 14, 16, 18, 20, 22}
+	}
+	for _, h := range tallH {
+		for hf := 0; hf < 3; hf++ {
+			if q && hf != (h/2+int(seed))%3 {
+				continue
+			}
+			s := rng.Seed48()
+			add(XCfg{H: h, HF: hf, Seed: rt.Hex(s[:]), Seam: true}, "tall-verify", float64(uint32(1)<<uint(h))*0.00003+2, nil)
+		}
+	}
 	if !q {
 		for _, h := range []int{22} {
 			for hf := 0; hf < 3; hf++ {
@@ -105,6 +120,10 @@ func c01Run(j *rt.Job, seed uint64, r *rt.Rec) {
 	rng := rt.NewRand(seed, j.ID)
 	r.Observe("configs", fmt.Sprintf("h=%d/%s/%s", c.H, hashNames[c.HF], mode))
 	n := uint32(1) << uint(c.H)
+	if mode == "tall-verify" {
+		c01TallVerify(c, j, rng, r)
+		return
+	}
 	if c.Seam {
 		c.seam(func() { c01Seam(c, mode, j, rng, r) })
 		return
@@ -461,4 +480,76 @@ func c01Replay(cs map[string]interface{}) (bool, string) {
 		}
 	})
 	return viol, detail
+}
+
+// c01TallVerify: a tall key whose leaves are fake except at the indices that will be signed; those carry the
+// genuine WOTS leaf (computed by the reference, which C06 shows equal to the library's). The tree is then
+// consistent at exactly those indices, so Sign -> Verify runs end to end through the public API at heights
+// that real key generation cannot reach in a check.
+func c01TallVerify(c XCfg, j *rt.Job, rng *rt.Rand, r *rt.Rec) {
+	n := uint32(1) << uint(c.H)
+	sd := c.seed()
+	sec := xmssref.Expand(sd[:])
+	set := map[uint32]bool{0: true, 1: true, n - 1: true, n / 2: true, n/2 - 1: true, n / 8: true, n/8 + n/16 - 1: true, 255: true, 256: true}
+	if n > 65536 {
+		set[65535], set[65536] = true, true
+	}
+	for len(set) < 16 {
+		set[uint32(rng.Intn(int(n)))] = true
+	}
+	var idxs []uint32
+	real := map[uint32][]byte{}
+	for v := range set {
+		if v < n {
+			idxs = append(idxs, v)
+			real[v] = xmssref.Hash(c.HF).Leaf(sec.SkSeed, sec.Pub, v)
+		}
+	}
+	sortU32(idxs)
+	xmss.VerifSetLeafOverride(func(leaf []uint8, idx uint32) {
+		if l, ok := real[idx]; ok {
+			copy(leaf, l)
+			return
+		}
+		copy(leaf, fakeLeafBytes(sd[:], idx))
+	})
+	defer xmss.VerifSetLeafOverride(nil)
+	k := c.newLib()
+	pk := k.GetPK()
+	r.Observe("configs", fmt.Sprintf("h=%d/%s/tall-verify", c.H, hashNames[c.HF]))
+	for _, idx := range idxs {
+		if idx > k.GetIndex() {
+			k.SetIndex(idx)
+		}
+		if k.GetIndex() != idx {
+			continue
+		}
+		msg := msgFor(c, idx, "tall")
+		sig, err := k.Sign(msg)
+		r.Eval(1)
+		xc := XCase{Kind: "job"}
+		_ = xc
+		if err != nil || sigIndex(sig) != idx {
+			r.Violate("C01/sign-error", fmt.Sprintf("Sign failed or carries a wrong index at index %d of a tall key (%s)", idx, c), jobCase(j), "", "")
+			return
+		}
+		acc, out := libVerify(msg, sig, pk)
+		if !acc {
+			r.Violate(fmt.Sprintf("C01/not-verified/h=%d", c.H), fmt.Sprintf("signature at index %d of a height-%d key (genuine leaf at that index) does not verify under the key's public key (%s): %s", idx, c.H, c, out), jobCase(j), "Verify = true", out.String())
+			return
+		}
+		if acc2, _ := libVerify(append(append([]byte(nil), msg...), 1), sig, pk); acc2 {
+			r.Violate("C01/other-message", fmt.Sprintf("signature at index %d of a tall key also verifies for a different message (%s)", idx, c), jobCase(j), "false", "true")
+			return
+		}
+		r.Count("verified_by_lib", 1)
+		r.Count("tall_signatures_verified", 1)
+		if xmssref.Verify(msg, sig, pk[:]) {
+			r.Count("verified_by_ref", 1)
+		} else {
+			r.Count("reference_verifier_disagrees(info)", 1)
+		}
+		r.Distinct(c.Seed, c.H, c.HF, idx, "tall")
+	}
+	r.Sample(map[string]interface{}{"cfg": c.String(), "mode": "tall-verify", "signed_indices": idxs})
 }
